@@ -139,6 +139,18 @@ ASSIGNED = [("b", True), ("i", 7), ("f", 2.5), ("f", "NaN"), ("s", "abc")]
 
 
 def enumerate_cases(tier):
+    # one boolean mask per dimension on square arrays (together they have the array's own shape, yet they are per-axis masks, not a full N-d mask)
+    for n in (2, 3):
+        labs = [10 * (k + 1) for k in range(n)][::-1]
+        for m0 in itertools.product([False, True], repeat=n):
+            for m1 in itertools.product([False, True], repeat=n):
+                if n == 3 and (sum(m0) + sum(m1)) % 2:
+                    continue        # (half of the 3 x 3 grid: 32 mask pairs)
+                for as_ in ("list", "array"):
+                    yield "per-axis-masks-on-square-arrays", {"mode": "assign", "spec": {"dims": ["x", "y"], "labels": [labs, labs[::-1]], "vk": "f", "base": 0},
+                                                              "lidx": [{"k": "mask", "v": list(m0), "as": as_}, {"k": "mask", "v": list(m1), "as": as_}],
+                                                              "pidx": [{"k": "pmask", "v": list(m0)}, {"k": "pmask", "v": list(m1)}],
+                                                              "rhs": {"rk": "f", "shape": "scalar", "base": 1, "bdim": 0}, "cast": False}
     for vk in "bifs":
         for rk, val in ASSIGNED:
             for form in ("cell", "list", "mask", "ndmask", "values"):
